@@ -72,9 +72,10 @@ class CoreGen:
     """Programs inside the fragment of coq/lib/Core.v: integer/boolean constants, variables, fixed-arity
     lambdas (first class), application, if, let, begin, integer primitives; defines first, one main."""
 
-    def __init__(self, rng):
+    def __init__(self, rng, assign=False):
         self.r = rng
         self.n = 0
+        self.assign = assign    # include set! / named let / letrec / internal defines (CoreS fragment)
         self.funcs = {}     # name -> arity (int -> int functions)
 
     def fresh(self, b):
@@ -116,8 +117,40 @@ class CoreGen:
             env2[x] = "int"
             return ("app", ("lam", [g], None, [lang.A(g, lang.A(g, self.e_int(d - 2, env)))]),
                     [("lam", [x], None, [self.e_int(d - 2, env2)])])
-        if k < 0.9:
+        if k < 0.86:
             return ("begin", [self.e_int(d - 1, env), self.e_int(d - 1, env)])
+        if k < 0.915 and self.assign:
+            kind = r.choice(["counter", "setlocal", "nlet", "letrec", "idef"])
+            if kind == "counter":
+                # a captured and assigned local: boxed by the engine
+                c, inc = self.fresh("c"), self.fresh("inc")
+                return ("let", [(c, self.e_int(d - 2, env))],
+                        [("let", [(inc, ("lam", [], None, [("set", c, lang.A("+", lang.V(c), lang.I(r.choice([1, 2, 5])))), lang.V(c)]))],
+                          [lang.A("+", lang.A(inc), lang.A(inc), lang.V(c))])])
+            if kind == "setlocal":
+                # assigned but never captured: set! returns the OLD value
+                x = self.fresh("s")
+                env2 = dict(env)
+                env2[x] = "int"
+                return ("let", [(x, self.e_int(d - 2, env))],
+                        [lang.A("+", ("set", x, self.e_int(d - 2, env2)), lang.V(x))])
+            if kind == "nlet":
+                lp, i, acc = self.fresh("loop"), self.fresh("i"), self.fresh("acc")
+                env2 = dict(env)
+                env2[i] = "int"
+                env2[acc] = "int"
+                return ("nlet", lp, [(i, lang.I(r.choice([0, 1, 3, 6]))), (acc, self.e_int(d - 2, env))],
+                        [("if", lang.A("<=", lang.V(i), lang.I(0)), lang.V(acc),
+                          lang.A(lp, lang.A("-", lang.V(i), lang.I(1)), self.e_int(d - 2, env2)))])
+            if kind == "letrec":
+                ev, od, n = self.fresh("ev"), self.fresh("od"), self.fresh("n")
+                return ("letrec", [(ev, ("lam", [n], None, [("if", lang.A("zero?", lang.V(n)), lang.I(1), lang.A(od, lang.A("-", lang.V(n), lang.I(1))))])),
+                                   (od, ("lam", [n], None, [("if", lang.A("zero?", lang.V(n)), lang.I(0), lang.A(ev, lang.A("-", lang.V(n), lang.I(1))))]))],
+                        [lang.A(ev, lang.I(r.choice([0, 1, 4, 7])))])
+            y = self.fresh("d")
+            env2 = dict(env)
+            env2[y] = "int"
+            return ("let", [], [("define", y, self.e_int(d - 2, env)), self.e_int(d - 1, env2)])
         if k < 0.94:
             # run-time errors: type, arity (through a variable), application of a non-procedure
             kind = r.choice(["type", "arity", "notproc"])
@@ -161,6 +194,14 @@ class CoreGen:
                 body = self.e_int(r.choice([2, 3]), env)
                 self.funcs[f] = ar
             forms.append(("define", f, ("lam", ps, None, [body])))
+        if self.assign and r.random() < 0.5 and self.funcs:
+            # a global variable assigned by a function and read afterwards
+            g = self.fresh("gv")
+            f = self.fresh("bump")
+            forms.append(("define", g, lang.I(r.choice([0, 3, 10]))))
+            forms.append(("define", f, ("lam", ["k"], None, [("set", g, lang.A("+", lang.V(g), lang.V("k")))])))
+            forms.append(lang.A("+", lang.A(f, lang.I(2)), lang.A(f, lang.I(5)), lang.V(g), self.e_int(2, {})))
+            return forms
         forms.append(self.e_int(r.choice([2, 3, 4]), {}))
         return forms
 
@@ -177,12 +218,26 @@ def core_model_expr(forms, fuel=20000):
             '| _ => "OUTSIDE"%%string end' % (unit, fuel, fuel * 40))
 
 
-def three_way(ck, n):
-    """Engine vs big-step core semantics vs model compiler+VM (the two ends of the simulation theorem)."""
-    g = CoreGen(ck.rng)
+CORES_HEADER = ("From SV Require Import lib.Lang lib.Core lib.CoreS lib.Bytecode lib.BytecodeS.\n"
+                "From Coq Require Import ZArith List String Ascii.\nImport ListNotations.\nOpen Scope string_scope.\n")
+
+
+def cores_model_expr(forms, fuel=20000):
+    unit = lang.cq_body(forms)
+    return ('(S.unit_render_ref %d %s ++ " / " ++ S.unit_render_vm (N.to_nat 100000%%N) true true %d %s ++ " / " ++ '
+            'S.unit_render_conv %d %s)%%string' % (fuel, unit, fuel * 40, unit, fuel, unit))
+
+
+def three_way(ck, n, assign=False):
+    """Engine vs big-step core semantics vs model compiler+VM (the two ends of the simulation theorem).
+    assign=True: the assignment layer (CoreS reference with a store, boxing pass, heap VM)."""
+    g = CoreGen(ck.rng, assign=assign)
     progs = [g.program() for _ in range(n)]
     eng = ck.eval_cases([[lang.unit_to_steel(p)] for p in progs], fresh=True, batch=16, timeout_per_batch=90)
-    mod = ck.coq_eval(CORE_HEADER, [core_model_expr(p) for p in progs], shard=25)
+    if assign:
+        mod = ck.coq_eval(CORES_HEADER, [cores_model_expr(p) for p in progs], shard=25)
+    else:
+        mod = ck.coq_eval(CORE_HEADER, [core_model_expr(p) for p in progs], shard=25)
     agree = 0
     for p, e, m in zip(progs, eng, mod):
         r = e[0] if e else {}
@@ -194,11 +249,16 @@ def three_way(ck, n):
         else:
             es = "CRASH " + json.dumps(r)[:80]
         ck.cov["evaluations"] += 1
-        if "FUEL" in m or m == "OUTSIDE":
+        if "FUEL" in m or m == "OUTSIDE" or "UNSUPPORTED" in m:
             ck.cov["core_skipped"] = ck.cov.get("core_skipped", 0) + 1
             continue
-        core, _, vm = m.partition(" / ")
+        parts = m.split(" / ")
+        core, vm = parts[0], parts[1]
         case = {"program": lang.unit_to_steel(p), "engine": es, "core_semantics": core, "model_vm": vm}
+        if len(parts) > 2 and parts[2] != core:
+            # the boxing pass (assign_convert) is not covered by a theorem: a disagreement here is a model defect
+            ck.violation("boxing pass changes the meaning in the model (seval vs beval o assign_convert)", {"case": case, "conv": parts[2]},
+                         no_input=True, tag="conv")
         if core != vm:
             # the simulation theorem says this cannot happen: the executable definitions disagree
             ck.violation("model compiler/VM and core semantics disagree (contradicts C01_program_render)", {"case": case},
@@ -209,7 +269,7 @@ def three_way(ck, n):
             ck.failing_input("engine and core semantics differ on a core-fragment program", case, tag="core")
         else:
             agree += 1
-    ck.cov["core_three_way_agree"] = agree
+    ck.cov["core_three_way_agree" + ("_assign" if assign else "")] = agree
     if progs:
         ck.sample({"core_program": lang.unit_to_steel(progs[0]), "model": mod[0]})
 
@@ -228,7 +288,7 @@ def run(ck):
         proved = ck.proof_stage(["c01"], ["c01/Properties_C01"], "c01/Pins_C01.v") and proved
     ck.harness_build(["evalsrv"])
     g = lang.Gen(ck.rng)
-    n = 200 if ck.tier == "quick" else 5000
+    n = 150 if ck.tier == "quick" else 5000
     progs = [g.program() for _ in range(n)]
     res = compare(ck, [[p] for p in progs])
     nontrivial = set()
@@ -255,6 +315,8 @@ def run(ck):
     ck.cov["rule"] = "type-directed random programs (checks/lang.py Gen); distinct = distinct reference outcomes (values+output+error class)"
     ck.cov["construct_histogram"] = g.stats
     if os.path.exists(os.path.join(common.COQ, "lib", "Bytecode.v")):
-        three_way(ck, 150 if ck.tier == "quick" else 4000)
+        three_way(ck, 70 if ck.tier == "quick" else 3000)
+        if os.path.exists(os.path.join(common.COQ, "lib", "BytecodeS.v")):
+            three_way(ck, 70 if ck.tier == "quick" else 3000, assign=True)
     if not proved and not ck.violations:
         ck.unproved()
